@@ -4,6 +4,12 @@ Every voter lives on its own thread and performs a sequence of `vote` / `rescind
 (`vote`, `rescind` or dropping the voter). Every call is bracketed by two tickets drawn from one global counter
 (`start`, `end`), so "call A was over before call B began" (`A.end < B.start`) is known across threads.
 
+line: `wake <n> <seed> <rounds>` — the WAITER: per round a fresh coordinator, every voter casts one vote from its own
+thread after a tiny random spin while the calling thread polls the real `Receiver` with a park/unpark waker after its
+own spin, so that the final vote races with the poll (`load` / `register` / `load`); once every vote of the round has
+returned, a waker that was registered (`Pending`) and has not been woken is a lost wake-up.
+out:  `rounds=<r> ready=<a> pending=<p> woken=<w> lost=<l> unanimous=<u>`
+
 line: `threads <n> …`
 out:  `t0=<call>,<call>,… t1=… ready=<0|1>`  with `<call>` = `v|r` `U|P` `:<start>-<end>` or `d:<start>-<end>` (drop)
 
@@ -116,6 +122,19 @@ def check (line out : String) : Option String :=
       else if ts.any endsWithdrawn && ready then some "th-final-rescind-pending-but-ready"
       else none
     | _, _ => some "th-malformed"
+  | "wake" :: _ =>
+    -- the waiter rounds: `rounds=<r> ready=<a> pending=<p> woken=<w> lost=<l> unanimous=<u>`
+    let kv (k : String) : Option Nat :=
+      ((words out).find? (fun t => t.startsWith (k ++ "="))).bind (fun t => (t.drop (k.length + 1)).toString.toNat?)
+    match kv "rounds", kv "ready", kv "pending", kv "woken", kv "lost", kv "unanimous" with
+    | some r, some a, some p, some w, some l, some u =>
+      -- a receiver told `Pending` is woken by the vote that completes unanimity (`C17_poll_no_lost_wakeup`)
+      if l > 0 then some "coord-threads-lost-wakeup"
+      -- exactly one `vote()` per round is told `Unanimous` (`C17_vote_unanimous_sound`, `C17_unanimity_stable`)
+      else if u ≠ r then some "coord-threads-unanimous-count"
+      else if a + p ≠ r || w + l ≠ p then some "th-malformed"
+      else none
+    | _, _, _, _, _, _ => some "th-malformed"
   | _ => some "th-unparsable"
 
 end SwimVerif.CoordThreads
